@@ -134,6 +134,15 @@ def idPairsFromDelta (inp : Input) (δ : Rat) (u : DUnit) (relTol : Rat) (allPai
   | .error e => .error e
   | .ok ps => if ps.isEmpty then .error .filter else .ok ps
 
+/-! ### specification vocabulary (used by the theorems, not by the driver) -/
+
+/-- sum of the first `k` increments -/
+def psum (l : List Rat) (k : Nat) : Rat := (l.take k).sum
+
+/-- amount accumulated between pose `i` and pose `j` (path length for `steps`, accumulated rotation
+for `cang`): the sum of the increments `l[i] … l[j−1]` -/
+def span (l : List Rat) (i j : Nat) : Rat := psum l j - psum l i
+
 /-! ### decision margins (for the float-vs-exact borderline filter of the harness; not verified) -/
 
 def big : Rat := 1000000000000
